@@ -446,6 +446,18 @@ class FnEval:
             if rv[0] == "ref" or rv[0] == "rawptr":
                 return self.place_len(rv[2], at, depth)
             if rv[0] == "use":
+                o = rv[1]
+                if o[0] in ("cp", "mv") and len(o[1]) == 2 and isinstance(o[1][1], list) and o[1][1][0] == "f":
+                    dd = self.b.single_def(o[1][0])
+                    if dd and dd[2] == "call" and (dd[3][1]["f"].endswith("::split_at") or dd[3][1]["f"].endswith("::split_at_mut")):
+                        base = self.slice_len(dd[3][2][0], at, depth + 1)
+                        mid = self.op_ival(dd[3][2][1])
+                        if mid is not None and mid[0] == mid[1]:
+                            if o[1][1][1] == 0:
+                                return (mid[0], mid[0])
+                            if base is not None:
+                                return (max(0, base[0] - mid[0]), base[1] - mid[0])
+                    return None
                 return self.slice_len(rv[1], at, depth + 1)
             if rv[0] == "cast":
                 # unsizing &[T;N] -> &[T]
@@ -982,11 +994,26 @@ class FnEval:
 
     def _call_success_guards(self, bi, t, l, out):
         d = self.b.single_def(l)
+        false_t = [x[1] for x in t[2] if int(x[0]) == 0]
+        true_t = t[3]
+        if d and d[2] == "call" and d[3][1]["l"]:
+            # `if helper(buf) { .. }`: success = true edge
+            self._emit_callee_facts(d[3], bi, true_t, out)
+            return
         if not d or d[2] != "A":
             return
         rv = d[3][2]
-        false_t = [x[1] for x in t[2] if int(x[0]) == 0]
-        true_t = t[3]
+        if rv[0] == "un" and rv[1] == "Not":
+            co = self._call_of(rv[2])
+            if co is not None:
+                for ft in false_t:
+                    self._emit_callee_facts(co[0], bi, ft, out)
+            return
+        if rv[0] == "use":
+            co = self._call_of(rv[1])
+            if co is not None:
+                self._emit_callee_facts(co[0], bi, true_t, out)
+            return
         if rv[0] == "bin" and rv[1] in ("Eq", "Ne"):
             for x, y in ((rv[2], rv[3]), (rv[3], rv[2])):
                 c = const_int(y)
